@@ -296,7 +296,7 @@ def run(ctx, rep):
             rep.ob('R7.2', f'params.{fld}[<variable key>]', None, f'non-constant key {show(e["key"])[:60]}')
             continue
         missing = [m for m, ks in arms.items() if kn not in ks]
-        rep.ob('R7.2', f'params.{fld}[{kn}]', bool(arms) and not missing,
+        rep.ob('R7.2', f'params.{fld}[{kn}]', None if not arms else not missing,
                f'inserted by every arm of Params::new' if arms and not missing else f'not inserted for method discriminants {missing}',
                where=e.get('span'))
     rep.floor('parameter-map reads', n_reads, 12)
